@@ -199,3 +199,56 @@ def tier1_problems(tier, rng):
         yield {"h": h, "w": w, "p": g[:-1] + [g[-1][:-1]]}
         yield {"h": h, "w": w, "p": g[:-1]}
         yield {"h": h, "w": w, "p": []}
+
+
+TR = {"^": "<", "<": "^", "v": ">", ">": "v", ".": "."}
+
+
+def _transpose(pb, segs):
+    p = [[TR[c[0]] + c[1:] for c in r] for r in L.transpose_grid(pb["p"])]
+    segs_t = {((y1, x1)[::-1], (y2, x2)[::-1]) for ((y1, x1), (y2, x2)) in segs}
+    return {"h": pb["w"], "w": pb["h"], "p": p}, segs_t
+
+
+def big(tier, rng):
+    """boards too large for the candidate enumeration:
+    1 x N / N x 1 with one or two fireflies (a beam on a single line can never end at a dot-less side: no solution at all);
+    2 x N with '>3' in the corner: the beam runs out along the top, down, back along the bottom and up into the firefly -
+    one solution per turning column (N - 1 of them), the outermost ring is planted;
+    3 x N (N odd) with a two-digit number: the beam of A = (0, 0) zigzags through the columns 1 .. N - 2 of the two upper rows
+    (2N - 4 turns) into C = (1, N - 1), whose beam returns along the bottom row into A (2 turns); and the transposed boards"""
+    th = tier == "thorough"
+    ns = L.LONG if th else L.sample(rng, L.LONG, 2)
+    for n in ns:
+        for k in (1, 2):
+            xs = sorted(rng.sample(range(n), k))
+            pb = _grid(1, n, {(0, x): rng.choice("<>") + rng.choice(["?", "0", "1", "12"]) for x in xs})
+            yield dict(pb, n_solutions=0)
+            pbt, _ = _transpose(pb, set())
+            yield dict(pbt, n_solutions=0)
+    for n in ns:
+        pb = _grid(2, n, {(0, 0): ">3"})
+        segs = set()
+        for c in range(n - 1):
+            segs.add(((0, c), (0, c + 1)))
+            segs.add(((1, c), (1, c + 1)))
+        segs.add(((0, 0), (1, 0)))
+        segs.add(((0, n - 1), (1, n - 1)))
+        yield dict(pb, planted=[L.lattice_answer(2, n, segs)], n_solutions=n - 1)
+        pbt, segs_t = _transpose(pb, segs)
+        yield dict(pbt, planted=[L.lattice_answer(n, 2, segs_t)], n_solutions=n - 1)
+    for n in ([19, 21, 23, 25] if th else [rng.choice([19, 21, 23, 25])]):
+        pb = _grid(3, n, {(0, 0): ">" + str(2 * n - 4), (1, n - 1): "v2"})
+        segs = {((0, 0), (0, 1))}
+        for c in range(1, n - 1):
+            segs.add(((0, c), (1, c)))
+            r = c % 2            # the row in which the beam leaves column c
+            segs.add(((r, c), (r, c + 1)))
+        for c in range(n - 1):
+            segs.add(((2, c), (2, c + 1)))
+        segs.add(((1, n - 1), (2, n - 1)))
+        segs.add(((1, 0), (2, 0)))
+        segs.add(((0, 0), (1, 0)))
+        yield dict(pb, planted=[L.lattice_answer(3, n, segs)])
+        pbt, segs_t = _transpose(pb, segs)
+        yield dict(pbt, planted=[L.lattice_answer(n, 3, segs_t)])
